@@ -72,6 +72,17 @@ def stack_record(ctx: Ctx, rid: int, rng: random.Random, kind: str, dims) -> dic
 
             def centre(i, j, k):
                 return place([x0 + (i + 0.5) * lx / nx, y0 + (j + 0.5) * ly / ny, (k + 0.5) * height / nz])
+        elif kind == "transformed-scaled":
+            # tiers that taper: every tier is the previous one moved on and scaled about ITS OWN centre (a Scaling without origin)
+            q = rng.choice([0.8, 1.25])
+            stack = cb.TransformedStack(grid, [cb.Translation(vmul(normal, height / nz)), cb.Scaling(q)], nz)
+
+            def centre(i, j, k, q=q):
+                c0 = place([x0 + lx / 2, y0 + ly / 2, 0])
+                m = vsub(place([x0 + (i + 0.5) * lx / nx, y0 + (j + 0.5) * ly / ny, 0]), c0)
+                lo = vadd(vadd(c0, vmul(normal, k * height / nz)), vmul(m, q ** k))
+                hi = vadd(vadd(c0, vmul(normal, (k + 1) * height / nz)), vmul(m, q ** (k + 1)))
+                return vmul(vadd(lo, hi), 0.5)
         else:
             # revolve about an axis in the sketch plane, well outside the sketch
             a_dir = vsub(place([0, 1, 0]), place([0, 0, 0]))
@@ -273,7 +284,7 @@ def run(ctx: Ctx) -> None:
     n = 12 if ctx.tier == "quick" else 100
     picks = rng.sample(distinct, min(n, len(distinct))) + rng.sample(sizes, 3 if ctx.tier == "quick" else 30)
     recs: List[dict] = []
-    stack_kinds = ["extruded", "extruded-list", "extruded-tuple", "extruded-array", "revolved", "transformed"]
+    stack_kinds = ["extruded", "extruded-list", "extruded-tuple", "extruded-array", "revolved", "transformed", "transformed-scaled"]
     rng.shuffle(stack_kinds)
     for n_pick, dims in enumerate(picks):
         kind = stack_kinds[n_pick % len(stack_kinds)]
